@@ -145,6 +145,18 @@ class C19(Prop):
                 fails.append({"msg": "directory changed during replay"})
         return fails
 
+    def known_signature(self, finding, case, ops, results, failure):
+        if finding["id"] == "K12":
+            # two Configs with the same directory and extension whose Filenames are F and F_<digits>
+            import re
+            cfgs = [kv for n_, kv in ops if n_ == "newconfig" and kv.get("fn") not in ("~", "-", None)]
+            for a in cfgs:
+                for b in cfgs:
+                    fa, fb = unhx(a["fn"]), unhx(b["fn"])
+                    if a.get("dir") == b.get("dir") and a.get("ext") == b.get("ext") and re.fullmatch(re.escape(fa) + rb"_\d+", fb):
+                        return True
+        return False
+
     def nontrivial(self, case, ops, results):
         return any(r[0] == "obs" and r[2]["outcome"] in ("added", "updated", "passed", "failed:diff") for r in results)
 
